@@ -3,6 +3,7 @@ CONSTANTS Timers = {1}
           AutoOffs = {3600}
           Step = 1800
           MaxAir = 1
+          Fam = "heater"
 INVARIANT TypeOK
 PROPERTY SwitchesOffEventually
 CHECK_DEADLOCK FALSE
